@@ -1368,3 +1368,6 @@ def explore(rep, br, tier, seed):
     _explore_without_t(rep, br, tier, seed)
     t_check.explore_t(rep, tier, seed, pid=ID, only=["listing"])
     t_check3.explore_listing3(rep, tier, seed, pid=ID)
+
+# session-7 addition to the claimed level (MANIFEST text only)
+LEVEL_TEXT = LEVEL_TEXT + " " + 'Props/R_listing.v proves label_is_image_address on the reference assembler (every placed label is listed under its file with the address at which the byte following it lies in the image; completeness, order and the converse); Props/T_listing2.v proves the whole generate_listing regenerated from the AST (gen_pure3) equal to the model.'
